@@ -79,3 +79,13 @@ Example C06_text_example :
   let j := JObj [("a\""b", JArr [JNum 100 0; JNum (-15) (-1); JStr "x\y"; JNull]); ("", JObj []); ("k", JBool true)] in
   parse_json (print_json j) = Some (canon j) /\ print_json j = "{""a\\\""b"":[1e2,-15e-1,""x\\y"",null],"""":{},""k"":true}".
 Proof. exact parse_print_example. Qed.
+
+(* The rendering a response takes when it carries a `$ref` (an alternative struct in Response.MarshalJSON, transcribed by hand and
+   tied by the differential run) names every member of the response properties regenerated from the source: nothing a decoded
+   response holds is without a place in the text (the defect F29 was a member - headers - declared there and never filled). *)
+Theorem C06_reference_rendering_of_a_response_names_every_member :
+  forallb (fun f => existsb (fun g => String.eqb (f_json g) (f_json f) && String.eqb (f_go g) (f_go f)) response_ref_fields)
+          (fields_of gen_env "ResponseProps") = true
+  /\ List.length response_ref_fields = List.length (fields_of gen_env "ResponseProps").
+Proof. vm_compute. split; reflexivity. Qed.
+Print Assumptions C06_reference_rendering_of_a_response_names_every_member.
